@@ -29,15 +29,20 @@ from __future__ import annotations
 
 import inspect
 import itertools
+import logging
 import math
+import os
 import types
 from fractions import Fraction
 
 import numpy as np
 
+os.environ.setdefault("NUMBA_NUM_THREADS", "4")      # shared machine; the polynomial kernels used here are small
+
 F = Fraction
 PROPS = ["HitenModel.Props.C08"]
-SRC = ["HitenModel.Core.C08", "HitenModel.Gen.C08", "HitenModel.Lemmas.C08", "HitenModel.Lemmas.C08Mv", "HitenModel.Props.C08"]
+SRC = ["HitenModel.Core.C08", "HitenModel.Gen.C08", "HitenModel.Lemmas.C08", "HitenModel.Lemmas.C08Mv", "HitenModel.Lemmas.C08NF",
+       "HitenModel.Props.C08", "Drivers.C08"]
 NMAX_GEN = 10
 REL = 1e-10          # correspondence tolerance (relative to the largest coefficient of the compared polynomial)
 GUARD = 1e-14        # expected small-divisor threshold (checked by probing in gen())
@@ -495,6 +500,8 @@ def synthetic_cases(ctx):
     cases.append(gen_case(rng, 4, 6, "resonant", modes=(2.0, 1.0, 1.0)))
     cases.append(gen_case(rng, 5, 5, "resonant-1:2", modes=(1.5, 2.0, 1.0)))
     cases.append(gen_case(rng, 4, 5, "lam=0", modes=(0.0, 2.0, 1.25)))
+    # small (but far from guarded) divisors: lam = 2^-7, nearly resonant centre frequencies
+    cases.append(gen_case(rng, 4, 6, "small-divisors", modes=(2.0 ** -7, 1.0, 1.0 + 2.0 ** -6)))
     cases.append(gen_case(rng, 4, 5, "degree-1-term", low=True))
     return cases
 
@@ -985,6 +992,7 @@ def pipelines(ctx):
 # ---------------------------------------------------------------------------------------------------------
 
 def run(ctx):
+    logging.disable(logging.WARNING)          # the library logs every normalisation order
     try:
         gen(ctx)
     except Exception as e:
@@ -1013,7 +1021,7 @@ def run(ctx):
     pipelines(ctx)
     ctx.search_ran = True
     ctx.rule = ("synthetic: Hamiltonians lam q1p1 + i om1 q2p2 + i om2 q3p3 (dyadic lam, om; incl. om1 = om2, om1 = 2 om2, lam = 0) + 3..10 random "
-                "Gaussian-dyadic monomials of degree 3..N (N = 3..6 quick, ..8 thorough; one case with a degree-1 term), both _lie_transform "
+                "Gaussian-dyadic monomials of degree 3..N (N = 3..6 quick, ..8 thorough; small divisors 2^-7; one case with a degree-1 term), both _lie_transform "
                 "variants, forward/inverse/restricted/sign-overridden expansions, kernels on integer Gaussian blocks incl. divisors at the guard "
                 "threshold; pipelines: L1, L2 of Earth-Moon and further mass ratios, degrees 4..6 (..8 thorough); a case is non-trivial when the "
                 "generating function is non-zero; distinct by (case tag, N, variant, number of generator terms)")
@@ -1028,6 +1036,7 @@ def run(ctx):
 
 def replay(ctx, rec):
     """Re-run one recorded failing input on the real code."""
+    logging.disable(logging.WARNING)
     rp = rec.get("replay") or {}
     if rp.get("kind") == "synthetic":
         case = Case.from_json(rp["input"])
